@@ -81,11 +81,84 @@ def corner_cases(latmax):
     return cases
 
 
+def seam_cases(latmax):
+    """Seam-directed candidates: the dates on which one of the reduced angles of the library's own three-day ephemeris (right ascension,
+    sidereal time at local midnight) wraps 360 -> 0 inside the triple - one or two dates per year and GMT offset, found by scanning a
+    year of k_ephemeris outputs - and their neighbours."""
+    eph = []
+    for y, lon, gmt in ((2023, 0.0, 0.0), (2024, -77.0, -5.0), (2023, 106.8, 7.0), (2025, 151.2, 10.0), (1999, 31.0, 2.0), (2024, -150.0, -10.0),
+                        (2023, 178.0, 12.0), (2023, -178.0, -12.0)):
+        d0 = datetime.date(y, 1, 1)
+        for k in range(0, 366):
+            eph.append({"api": "k_ephemeris", "date": (d0 + datetime.timedelta(days=k)).isoformat(), "gmt": gmt, "lat": 35.0, "lon": lon, "elev": 0.0})
+    tri = kreplay.run(eph)
+    hit = set()
+    for k, t in enumerate(tri):
+        if "astros" not in t:
+            continue
+        a = t["astros"]
+        for col in (2, 4):       # ra, sid_time
+            if a[0][col] > a[1][col] or a[1][col] > a[2][col]:
+                hit.update(j for j in (k - 1, k, k + 1) if 0 <= j < len(eph) and eph[j]["lon"] == eph[k]["lon"])
+    cases = []
+    lats = [x for x in (35.0, -50.0, 0.0, 58.0) if abs(x) <= latmax]
+    sel = sorted(hit)
+    e2 = [dict(eph[k], lat=la) for k in sel for la in lats]
+    for e, t in zip(e2, kreplay.run(e2)):
+        if "astros" in t:
+            cases.append({"api": "k_get_hours", "lat": e["lat"], "lon": e["lon"], "elev": 0.0, "astros": t["astros"], "from": e,
+                          "params": {"method": "Isna", "ext": "None", "round": "None", "asr": "Shafi"}})
+    return cases
+
+
+BOUNDARY_COMBOS = [  # (date, lon, gmt, Fajr angle, Isha angle, hemisphere)
+    ("2024-06-21", -15.0, 0.0, 20.0, 18.0, 1), ("2023-12-21", 30.0, 2.0, 18.0, 17.0, -1), ("2023-05-10", 100.0, 7.0, 15.0, 15.0, 1),
+    ("2024-01-15", -70.0, -5.0, 19.5, 17.5, -1), ("2023-07-20", 140.0, 9.0, 12.0, 21.0, 1),
+]
+
+
+def boundary_cases(latmax):
+    """Validity-boundary-directed candidates: for each combo bisect, on the real kernels, the latitude at which Fajr / Isha / sunrise
+    stops existing, and return cases at the last valid and first invalid double and a few steps (1e-12..1e-4 deg) on either side -
+    the places where the existence guard and the value computed behind it can disagree."""
+    cases = []
+    for date, lon, gmt, aF, aI, sign in BOUNDARY_COMBOS:
+        def at(lat):
+            e = {"api": "k_ephemeris", "date": date, "gmt": gmt, "lat": lat, "lon": lon, "elev": 0.0}
+            t = kreplay.run([e])[0]
+            if "astros" not in t:
+                return None, None
+            c = {"api": "k_get_hours", "lat": lat, "lon": lon, "elev": 0.0, "astros": t["astros"], "from": e,
+                 "params": {"method": "None", "ext": "None", "round": "None", "asr": "Shafi", "angles": {"Fajr": aF, "Isha": aI}}}
+            return c, kreplay.run([c])[0]
+        for ev in (0, 5, 1):
+            def valid(lat):
+                c, o = at(lat)
+                return o is not None and "hours" in o and (o["hours"][ev] is not None or ev in o.get("nonfinite", []))
+            lo, hi = 20.0, min(latmax, 89.9)
+            if not valid(sign * lo) or valid(sign * hi):
+                continue
+            for _ in range(60):
+                mid = (lo + hi) / 2
+                if mid == lo or mid == hi:
+                    break
+                if valid(sign * mid):
+                    lo = mid
+                else:
+                    hi = mid
+            for x in [lo, hi] + [lo - d for d in (1e-12, 1e-10, 3e-9, 1e-8, 1e-7, 1e-6, 1e-4)] + [hi + d for d in (1e-12, 1e-10, 1e-8, 1e-6)]:
+                if abs(x) <= latmax:
+                    c, o = at(sign * x)
+                    if c:
+                        cases.append(c)
+    return cases
+
+
 def confirm(rep, results, want, latmax, key_prefix=""):
     """Replay candidates (and seeded random admissible inputs) against the real kernels; report what reproduces."""
     cands = [c for x in results for c in x["cands"]]
-    if not cands:
-        return
+    if not cands and not any(x["inconclusive"] for x in results):
+        return      # every obligation decided and held
     cases = []
     for c in cands[:40]:
         k = case_from_inputs(c["inputs"])
@@ -94,6 +167,8 @@ def confirm(rep, results, want, latmax, key_prefix=""):
     seed = int(os.environ.get("VERIF_SEED", "0") or 0)
     cases += random_cases(400, latmax, seed)
     cases += corner_cases(latmax)
+    cases += boundary_cases(latmax)
+    cases += seam_cases(latmax)
     outs = kreplay.run(cases)
     found = {}
     for c, o in zip(cases, outs):
@@ -108,7 +183,7 @@ def confirm(rep, results, want, latmax, key_prefix=""):
         d, c, o = items[0]
         where = " at lat %.3f dec %.3f" % (c["lat"], c["astros"][1][1])
         rep.violation(key, d + where + (" (+%d more inputs)" % (len(items) - 1) if len(items) > 1 else ""), [x[1] for x in items[:5]], o)
-    if not found:
+    if not found and cands:
         rep.inconclusive.append("solver counterexamples of the kernel obligations were not reproduced natively on %d inputs "
                                 "(candidate + seeded admissible inputs); first: %s" % (len(cases), json.dumps(cands[0], default=str)[:600]))
 
